@@ -130,9 +130,13 @@ func verifyInputStruct(tx *reftx.Tx, i int, spent []reftx.TxOut, minsig bool, cn
 	in := &tx.In[i]
 	prev := spent[i]
 	kind := scriptKind(prev.PkScript)
-	noteLen := func(sig []byte) {
+	noteLen := func(sig []byte) string {
 		if !minsig || len(sig) < 9 {
-			return
+			return ""
+		}
+		if len(sig) > 71 {
+			// what -minsig guarantees in effect: DER signature + hash type byte of at most 71 bytes
+			return fmt.Sprintf("minsig-long-signature-%d", len(sig))
 		}
 		r, s, st := refec.ParseDER(sig[:len(sig)-1], 0)
 		if st == refec.DEROK {
@@ -142,6 +146,7 @@ func verifyInputStruct(tx *reftx.Tx, i int, spent []reftx.TxOut, minsig bool, cn
 				cnt["minsig_r_and_s_32_bytes"]++
 			}
 		}
+		return ""
 	}
 	switch kind {
 	case "p2pkh":
@@ -155,7 +160,9 @@ func verifyInputStruct(tx *reftx.Tx, i int, spent []reftx.TxOut, minsig bool, cn
 		if !bytes.Equal(refaddr.Hash160(p[1]), prev.PkScript[3:23]) {
 			return kind, "pubkey-hash-mismatch"
 		}
-		noteLen(p[0])
+		if why := noteLen(p[0]); why != "" {
+			return kind, why
+		}
 		return kind, checkECDSA(p[0], p[1], func(ht uint32) [32]byte {
 			return refsighash.Legacy(tx, prev.PkScript, i, ht)
 		}, false)
@@ -184,7 +191,9 @@ func verifyInputStruct(tx *reftx.Tx, i int, spent []reftx.TxOut, minsig bool, cn
 		if !bytes.Equal(refaddr.Hash160(pub), prog) {
 			return kind, "pubkey-hash-mismatch"
 		}
-		noteLen(sig)
+		if why := noteLen(sig); why != "" {
+			return kind, why
+		}
 		scriptCode := refaddr.P2PKHScript(prog)
 		return kind, checkECDSA(sig, pub, func(ht uint32) [32]byte {
 			return refsighash.WitnessV0(tx, scriptCode, prev.Value, i, ht)
@@ -222,6 +231,49 @@ func verifyInputStruct(tx *reftx.Tx, i int, spent []reftx.TxOut, minsig bool, cn
 		return kind, ""
 	}
 	return kind, "not-a-key-template"
+}
+
+// checkRFC6979: with -rfc6979 (and without minsig) the ECDSA signature of an input must be the
+// deterministic one: nonce from RFC 6979 (HMAC-SHA256 over key || digest), low-S normalised. Both
+// readings of the message octets (raw digest as libsecp256k1 feeds it, or reduced mod n as
+// bits2octets) are accepted; they differ only for digests >= n. "" = holds or not applicable.
+func checkRFC6979(tx *reftx.Tx, i int, spent []reftx.TxOut, priv []byte) string {
+	in := &tx.In[i]
+	prev := spent[i]
+	var sig []byte
+	var dig [32]byte
+	switch scriptKind(prev.PkScript) {
+	case "p2pkh":
+		p, ok := parseDirectPushes(in.ScriptSig)
+		if !ok || len(p) != 2 {
+			return ""
+		}
+		sig = p[0]
+		dig = refsighash.Legacy(tx, prev.PkScript, i, 1)
+	case "p2sh", "p2wpkh":
+		if len(in.Witness) != 2 {
+			return ""
+		}
+		sig = in.Witness[0]
+		dig = refsighash.WitnessV0(tx, refaddr.P2PKHScript(refaddr.Hash160(in.Witness[1])), prev.Value, i, 1)
+	default:
+		return "" // BIP340 signatures use auxiliary randomness; nothing to compare
+	}
+	if len(sig) < 9 {
+		return ""
+	}
+	r, s, st := refec.ParseDER(sig[:len(sig)-1], 0)
+	if st != refec.DEROK {
+		return ""
+	}
+	d := new(big.Int).SetBytes(priv)
+	for _, strict := range []bool{false, true} {
+		er, es, _ := refec.ECDSASignRFC6979(d, dig[:], strict)
+		if er.Cmp(r) == 0 && es.Cmp(s) == 0 {
+			return ""
+		}
+	}
+	return "signature-is-not-the-rfc6979-one"
 }
 
 func pushData(d []byte) []byte {
@@ -459,6 +511,16 @@ func judgeSend(o *outcome, w *wcfg, st *state, q *request, tx *reftx.Tx) {
 			o.v("signature/"+kind+"/"+why, fmt.Sprintf("input %d (%s) does not carry a valid standard signature: %s", i, kind, why), map[string]interface{}{"input": i})
 		} else {
 			o.counts["sig_verified/"+kind]++
+			if q.Rfc != 0 && q.MinSig == 0 {
+				if priv := w.Privs[inUtxos[i].Key]; priv != nil {
+					if why := checkRFC6979(tx, i, spent, priv); why != "" {
+						sigOK = false
+						o.v("rfc6979/"+kind+"/"+why, fmt.Sprintf("-rfc6979 is on but the signature of input %d (%s) is not the deterministic RFC 6979 signature of that key over that digest", i, kind), map[string]interface{}{"input": i})
+					} else if kind != "p2tr" {
+						o.inc("rfc6979_signature_recomputed")
+					}
+				}
+			}
 		}
 	}
 	if outsOK && sigOK {
@@ -686,6 +748,16 @@ func judgeRaw(o *outcome, w *wcfg, st *state, q *request, tx *reftx.Tx) {
 			o.v("raw-signature/"+kind+"/"+why, fmt.Sprintf("input %d (%s, key of the wallet) of the signed raw transaction does not carry a valid standard signature: %s", i, kind, why), map[string]interface{}{"input": i})
 		} else {
 			o.counts["raw_sig_verified/"+kind]++
+			if q.Rfc != 0 && q.MinSig == 0 {
+				if priv := w.Privs[ow.Key]; priv != nil {
+					if why := checkRFC6979(tx, i, spent, priv); why != "" {
+						allOK = false
+						o.v("raw-rfc6979/"+kind+"/"+why, fmt.Sprintf("-rfc6979 is on but the signature of input %d (%s) of the signed raw transaction is not the deterministic RFC 6979 signature", i, kind), map[string]interface{}{"input": i})
+					} else if kind != "p2tr" {
+						o.inc("rfc6979_signature_recomputed")
+					}
+				}
+			}
 		}
 	}
 	if allOK {
